@@ -50,7 +50,7 @@ func Create(engine engine.Engine, owner key.TargetID, lc info.LightCone) {
 
 	// TODO: recheck when multiple waves support is added
 	engine.Events().BattleStart.Subscribe(func(event event.BattleStart) {
-		for char := range event.CharInfo {
+		for _, char := range engine.Characters() { // team order, not map order
 			engine.AddModifier(char, dmgmod)
 		}
 
